@@ -125,6 +125,8 @@ class Lowerer:
         self.trivial_ext = set(cfg.get('trivial_externals', []))
         self.extern_c = set(cfg.get('extern_c', []))
         self.te.record_names = dict(cfg.get('record_names', {}))
+        for a, b in cfg.get('aliases', {}).items():
+            self.te.record_alias[a] = b
         for a, b in cfg.get('typedefs', {}).items():
             self.te.typedefs[a] = b
         for o in objs:
